@@ -43,6 +43,9 @@ pub enum Ctl {
     Repair(usize, usize),
     Hold(usize, usize),
     Release(usize, usize),
+    /// Sim::crash / Sim::bounce with a regex that matches several host names at once
+    CrashRe(String),
+    BounceRe(String),
 }
 
 #[derive(Clone, Debug, Serialize, Deserialize)]
@@ -137,7 +140,37 @@ async fn client(log: SharedLog, me: usize, inc: u32, srv: usize, rounds: u32, ms
             }
         });
     }
+    let lo = if v6 { "::1" } else { "127.0.0.1" };
     for r in 0..rounds {
+        // loopback traffic on this very host (TCP and UDP through 127.0.0.1 / ::1), with virtual timestamps
+        if let Ok(ll) = TcpListener::bind((lo, 9100)).await {
+            let llog = log.clone();
+            let srvh = tokio::task::spawn_local(async move {
+                if let Ok((mut s, peer)) = ll.accept().await {
+                    let mut b = [0u8; 4];
+                    let x = s.read_exact(&mut b).await.map(|_| ()).map_err(|e| e.kind());
+                    llog.ev(format!("n{me}.{inc} loopback accept {peer} read {x:?} {b:?} at {}us", us(turmoil::elapsed())));
+                    let _ = s.write_all(&b).await;
+                }
+            });
+            let res = tokio::time::timeout(to, async {
+                let mut s = TcpStream::connect((lo, 9100)).await?;
+                s.write_all(&[r as u8, 1, 2, 3]).await?;
+                let mut b = [0u8; 4];
+                s.read_exact(&mut b).await?;
+                Ok::<_, std::io::Error>(b)
+            })
+            .await;
+            log.ev(format!("n{me}.{inc} round {r} loopback tcp -> {:?} at {}us", res.map(|x| x.map_err(|e| e.kind())).map_err(|_| "timeout"), us(turmoil::elapsed())));
+            srvh.abort();
+            let _ = srvh.await;
+        }
+        if let Ok(lu) = UdpSocket::bind((lo, 9101)).await {
+            let _ = lu.send_to(&[9, r as u8], (lo, 9101)).await;
+            let mut b = [0u8; 4];
+            let x = tokio::time::timeout(to, lu.recv_from(&mut b)).await;
+            log.ev(format!("n{me}.{inc} round {r} loopback udp -> {:?} at {}us", x.map(|y| y.map_err(|e| e.kind())).map_err(|_| "timeout"), us(turmoil::elapsed())));
+        }
         // TCP request / response under a timeout
         let res = tokio::time::timeout(to, async {
             let mut s = TcpStream::connect((name(srv).as_str(), 9000)).await?;
@@ -194,9 +227,25 @@ async fn fs_worker(log: SharedLog, me: usize, inc: u32, files: u32, ring_ops: u3
     use turmoil::fs::shim::tokio::fs as tfs;
     use turmoil::io_uring::{opcode, types, IoUring};
     let dir = format!("/w{me}");
-    let _ = sfs::create_dir_all(&dir);
+    // what a previous incarnation left behind, in listing order (after a crash: the durable image)
+    for d in [dir.clone(), format!("{dir}/tmp")] {
+        if let Ok(rd) = sfs::read_dir(&d) {
+            let names: Vec<String> = rd.filter_map(|e| e.ok()).map(|e| e.file_name().to_string_lossy().to_string()).collect();
+            log.ev(format!("n{me}.{inc} start: read_dir {d} -> {:?}", names));
+        }
+    }
+    let _ = sfs::create_dir_all(format!("{dir}/tmp"));
     let _ = sfs::sync_dir("/");
     for r in 0..rounds {
+        // orphans: files whose data is synced while their directory entry never is (tmp is never sync_dir'ed)
+        for k in 0..2u32 {
+            let p = format!("{dir}/tmp/o{r}-{k}");
+            if sfs::write(&p, pattern(200 + r * 2 + k, 6)).is_ok() {
+                if let Ok(h) = sfs::OpenOptions::new().read(true).write(true).open(&p) {
+                    let _ = h.sync_all();
+                }
+            }
+        }
         // several files created in one directory, then listed IN ORDER
         for f in 0..files {
             let p = format!("{dir}/f{}-{}", (f * 7 + r) % 11, f);
@@ -351,6 +400,8 @@ fn execute(sc: &Scenario, keep: bool) -> (Vec<String>, u64, Option<String>, u64)
                             Ctl::Repair(a, b) => sim.repair(name(*a), name(*b)),
                             Ctl::Hold(a, b) => sim.hold(name(*a), name(*b)),
                             Ctl::Release(a, b) => sim.release(name(*a), name(*b)),
+                            Ctl::CrashRe(re) => sim.crash(regex::Regex::new(re).unwrap()),
+                            Ctl::BounceRe(re) => sim.bounce(regex::Regex::new(re).unwrap()),
                         }
                         log.ev(format!("ctl before step {s}: {:?}", c));
                     }
@@ -409,8 +460,8 @@ fn gen_scenario(rng: &mut Rng) -> Scenario {
         let at = rng.range(2, steps as u64) as u32;
         let a = rng.below(nh as u64) as usize;
         let b = rng.below(nh as u64) as usize;
-        match rng.below(4) {
-            0 => {
+        match rng.below(5) {
+            0 | 4 => {
                 script.push((at, Ctl::Crash(a)));
                 script.push((at + rng.range(0, 20) as u32, Ctl::Bounce(a)));
             }
@@ -421,6 +472,12 @@ fn gen_scenario(rng: &mut Rng) -> Scenario {
             2 if a != b => {
                 script.push((at, Ctl::Hold(a, b)));
                 script.push((at + rng.range(1, 40) as u32, Ctl::Release(a, b)));
+            }
+            3 if nh >= 2 && rng.chance(1, 2) => {
+                // several hosts at once, selected by a regex over the host names
+                let re = if rng.bool() { "^n[0-9]$".to_string() } else { format!("^n[{}{}]$", a, (a + 1) % nh) };
+                script.push((at, Ctl::CrashRe(re.clone())));
+                script.push((at + rng.range(0, 20) as u32, Ctl::BounceRe(re)));
             }
             _ => script.push((at, Ctl::Bounce(a))),
         }
@@ -520,6 +577,8 @@ impl Property for C01 {
                 Ctl::Repair(..) => "repair",
                 Ctl::Hold(..) => "hold",
                 Ctl::Release(..) => "release",
+                Ctl::CrashRe(..) => "crash_by_regex",
+                Ctl::BounceRe(..) => "bounce_by_regex",
             });
         }
         if sc.cfg.fail_rate_pm > 0 {
@@ -562,6 +621,7 @@ impl Property for C01 {
             c.script.retain(|(_, k)| match k {
                 Ctl::Crash(h) | Ctl::Bounce(h) => *h != last,
                 Ctl::Partition(a, b) | Ctl::Repair(a, b) | Ctl::Hold(a, b) | Ctl::Release(a, b) => *a != last && *b != last,
+                Ctl::CrashRe(_) | Ctl::BounceRe(_) => true,
             });
             out.push(c);
         }
